@@ -29,6 +29,12 @@ def method_segments(an, cm, roles, m, res=None):
                        'caches in %s reached from %s::%s' % (note[0], show_site(note[1]), cm.name, m.key()))
                 if msg not in res.incomplete:
                     res.incomplete.append(msg)
+        note = local_key_copy(keep)
+        if note is not None:
+            msg = ('G-UNKNOWN the keys are looked up from a local copy of the caller\'s range (%s) and the answers are stitched to them '
+                   'afterwards: two-phase delivery is not modelled in %s reached from %s::%s' % (note[0], show_site(note[1]), cm.name, m.key()))
+            if msg not in res.incomplete:
+                res.incomplete.append(msg)
         note = size_probe(keep)
         if note is not None:
             msg = ('G-UNKNOWN presence decided by comparing the index size before and after an insertion (%s): insert-then-undo is not '
@@ -42,6 +48,18 @@ def method_segments(an, cm, roles, m, res=None):
             if msg not in res.incomplete:
                 res.incomplete.append(msg)
     return keep
+
+
+def local_key_copy(tops):
+    """(term, site) if some loop body consults the index with the current element of a LOCAL container (a copy of the key range)"""
+    for top in tops:
+        for seg in top.all_segments():
+            for c in seg.conds_of('PRESENT'):
+                k = c[1][0]
+                k = k[2] if is_ld(k) else k
+                if isinstance(k, tuple) and k[:1] == ('elem',) and isinstance(k[1], tuple) and k[1][:1] == ('var',):
+                    return show(k), c[3]
+    return None
 
 
 def size_probe(tops):
@@ -738,6 +756,21 @@ def check_observer(res, prop, cm, roles, m, top):
         ok = isinstance(r, tuple) and r[0] == 'q' and r[1] == 'size' and r[2] in caps and (r[4] or 0) == 0
         ok = ok or (is_ld(r) and L.is_capacity(r))       # a const copy of the constructor argument
     ok = ok and not top.state_effects()
+    if not ok and m.name in ('size', 'empty'):
+        # an observer answered from an atomic mirror of the counter (or decided by one): whether the mirror is published at the
+        # right moments (once per operation, under the lock, after the last change) is a discipline across all mutators
+        def mentions_atomic(t, d=0):
+            if not isinstance(t, tuple) or d > 12:
+                return False
+            if t[:1] == ('atomicval',):
+                return True
+            return any(mentions_atomic(x, d + 1) for x in t)
+        if mentions_atomic(r) or any(mentions_atomic(c[4]) for c in top.conds):
+            msg = ('G-UNKNOWN %s() is answered from an atomic member (a lock-free mirror of the element counter): its publication '
+                   'discipline is not modelled in %s reached from %s::%s' % (m.name, show_site(site_of_seg(top, m)), cm.name, m.key()))
+            if msg not in res.incomplete:
+                res.incomplete.append(msg)
+            return
     res.ob('R-OBSERVERS', ok=ok)
     res.sample(dict(container=cm.name, method=m.key(), returns=show(r) if r is not None else None), cap=9)
     if not ok:
